@@ -7,7 +7,7 @@ Every finite binary32 is an integer multiple of 2^-149 below 2^128, and a produc
 integer multiple of 2^-298 below 2^256; so the magnitude of every exact intermediate result fits a
 **576-bit fixed-point number in units of 2^-298** (`Fix`).  Each operation computes the exact result
 in `Fix` and rounds once (`round`).  Only fixed-width bit-vector operations are used, so that facts
-about all 65 536 plate coordinates can be discharged by `bv_decide` (Lean's `Float32` is opaque to the
+about all 65 536 plate coordinates can be discharged by `bv_decide (timeout := 300)` (Lean's `Float32` is opaque to the
 kernel).  The model is compared with the hardware on every run by the C16 correspondence (random bit
 patterns through the terrain writer, all 65 536 coordinates through reader and writer).
 -/
